@@ -564,16 +564,41 @@ def add_mul_wallace(
 
         c = cn
 
+    # The two remaining rows are read as two numbers. A row may have empty
+    # cells between its gates (e.g. n = 2, m >= 9): such a cell stands for a
+    # zero bit and must keep its position, so it is filled with a constant-false
+    # gate instead of being skipped.
+    def _last_gate(row: int) -> int:
+        columns = [i for i in range(n + m) if c[i][row] != PLACEHOLDER_STR]
+        return columns[-1] if columns else -1
+
+    last_a = _last_gate(0)
+    last_b = _last_gate(1)
+    zero: list[gate.Label] = []
+
+    def _zero() -> gate.Label:
+        if not zero:
+            zero.append(
+                add_gate_from_tt(
+                    circuit, input_labels_a[0], input_labels_a[0], '0000'
+                )
+            )
+        return zero[0]
+
     labels_a = []
     labels_b = []
     shift = 0
     for i in range(n + m):
         if c[i][0] != PLACEHOLDER_STR:
             labels_a.append(c[i][0])
+        elif i < last_a:
+            labels_a.append(_zero())
         if c[i][1] != PLACEHOLDER_STR:
             labels_b.append(c[i][1])
         elif len(labels_b) == 0:
             shift += 1
+        elif i < last_b:
+            labels_b.append(_zero())
 
     return reverse_if_big_endian(
         add_sum_two_numbers_with_shift(circuit, shift, labels_a, labels_b)[: n + m],
